@@ -768,7 +768,7 @@ func (e *evalContext) evaluateUnknownAccess(syntax ast.Expr, receiver *schema.Sc
 			switch receiver.Type {
 			case "array":
 				n := -1
-				if receiver.Items.Never {
+				if receiver.Items != nil && receiver.Items.Never {
 					n = len(receiver.PrefixItems)
 				}
 				index, ok := e.arrayIndex(syntax, accessor.accessor, n)
